@@ -9,6 +9,8 @@
     lp pbkdf <256|512> <R> verify|identify|needs …
     lp passlib <256|512> verify <hash cps> <hexsecret>       -> the classic hasher (Model.VerifyCrypt) on the same string
     lp passlib <256|512> hash   <hexsecret> <salt cps> <rounds>
+    lp bcsha <R> identify|needs <record cps>
+    lp bcsha <R> verify <record cps> <0|1>     -- the last field is what bcrypt.checkpw answered on the real side (bcrypt is a parameter of the model)
 -/
 import PasslibVerif.Model.Libpass
 import PasslibVerif.Model.VerifyCrypt
@@ -61,6 +63,12 @@ def handle (args : List String) : String :=
     | some h, some hs => showB (match h.inspect hs with | .error e => .error e | .ok x => .ok x.isSome) | _, _ => bad
   | ["pbkdf", v, r, "needs", hs] => match r.toNat?.bind (pbkdf v), natList hs with
     | some h, some hs => showB (h.needsUpdate hs) | _, _ => bad
+  | ["bcsha", r, "identify", hs] => match r.toNat?, natList hs with
+    | some R, some hs => showB ((⟨R, fun _ _ _ _ _ => false⟩ : BcSha256Hasher).identify hs) | _, _ => bad
+  | ["bcsha", r, "needs", hs] => match r.toNat?, natList hs with
+    | some R, some hs => showB ((⟨R, fun _ _ _ _ _ => false⟩ : BcSha256Hasher).needsUpdate hs) | _, _ => bad
+  | ["bcsha", r, "verify", hs, ck] => match r.toNat?, natList hs with
+    | some R, some hs => showB ((⟨R, fun _ _ _ _ _ => ck == "1"⟩ : BcSha256Hasher).verify hs []) | _, _ => bad
   | ["passlib", v, "verify", hs, sec] => match classic v, natList hs, unhex sec with
     | some h, some hs, some b => showB (verify h (.bytes b) hs) | _, _, _ => bad
   | ["passlib", v, "hash", sec, salt, rounds] => match classic v, unhex sec, natList salt, rounds.toNat? with
